@@ -117,6 +117,49 @@ func runC16(c *core.Ctx) {
 		}
 	}
 
+	c.Rule("C16.rawload", "a transform function that stores rebuilt blocks back (it calls LinkSystem.Store) loads the blocks it rebuilds with LinkSystem.Fill into a builder - the block as stored - and never through LinkSystem.Load or a helper built on it, which hands out the NodeReifier's view of the block: what is stored back is the old block with only the target replaced", 1)
+	for _, tf := range tfns {
+		fn := tf.fn
+		stores := false
+		var loads []ssa.CallInstruction
+		var walk func(g *ssa.Function, depth int, seen map[*ssa.Function]bool)
+		walk = func(g *ssa.Function, depth int, seen map[*ssa.Function]bool) {
+			if seen[g] || depth > 3 {
+				return
+			}
+			seen[g] = true
+			for _, ci := range core.Calls(g) {
+				if core.IsMethod(ci, "", "LinkSystem", "Store") {
+					stores = true
+				}
+				if isBlockLoad(ci) {
+					loads = append(loads, ci)
+				}
+				// helpers of the package that are not part of a recursion (loadLink and the like)
+				if cal := ci.Common().StaticCallee(); cal != nil && cal != fn && len(cal.Blocks) > 0 && core.FuncPkg(cal) == core.FuncPkg(fn) && !tr.recursive(cal) {
+					walk(cal, depth+1, seen)
+				}
+			}
+			for _, an := range g.AnonFuncs {
+				walk(an, depth+1, seen)
+			}
+		}
+		walk(fn, 0, map[*ssa.Function]bool{})
+		if !stores {
+			continue
+		}
+		key := rel + "." + tf.label
+		bad := ""
+		pos := fn.Pos()
+		for _, ld := range loads {
+			if !core.IsMethod(ld, "", "LinkSystem", "Fill") {
+				bad = core.CalleeObj(ld).Name()
+				pos = ld.Pos()
+			}
+		}
+		c.Check(len(loads) > 0 && bad == "", key+"#loads-raw-block", p.Pos(pos), "blocks to be rebuilt are loaded with Fill", "the transform loads a block it is going to rebuild and store back through LinkSystem."+bad+" (directly or via a helper): with a NodeReifier configured the reified view is rebuilt and stored, and whatever the view hides is lost from the stored block")
+	}
+
 	c.Rule("C16.protocol", "the transform functions keep to the map-assembler protocol on every path: after a key was assigned through AssembleKey the next call on that assembler is AssembleValue (C12.client restricted to package traversal)", 4)
 	sub := &core.Ctx{P: p, Prop: "C16"}
 	sub.Rule("C12.client", "", 0)
